@@ -18,6 +18,10 @@ pub fn times() -> Vec<(String, TimeSpec)> {
         ("2024-02-29T12:34:56.9+05:30".into(), leap.with_offset(5 * 3600 + 1800)),
         ("2024-02-29T12:34:56.9-12:00".into(), leap.with_offset(-12 * 3600)),
         ("2024-02-29T12:34:56.9+00:00:01".into(), leap.with_offset(1)),
+        // sub-second parts where the GeneralizedTime form applies (before 1950, from 2050)
+        ("2054-03-05T12:30:15.25Z".into(), TimeSpec::ymdhms(2054, 3, 5, 12, 30, 15).with_nanos(250_000_000)),
+        ("1949-12-31T23:59:59.999999999Z".into(), TimeSpec::ymdhms(1949, 12, 31, 23, 59, 59).with_nanos(999_999_999)),
+        ("2050-01-01T00:00:00.000000001+01:00".into(), TimeSpec::ymd(2050, 1, 1).with_nanos(1).with_offset(3600)),
     ]
 }
 
